@@ -42,11 +42,11 @@ def explore(graph, prog, max_preempt, workdir, limit=4000, variant="terminology"
     return out
 
 
-def behaviours(graph, prog, cache, n, seed, wd):
+def behaviours(graph, prog, cache, n, seed, wd, variant="terminology"):
     """spec -> code: n behaviours of OdmlLoader from TLC's simulation mode (LoaderBeh: the model with a history
     variable holding the observable events; one JSON line per terminal state)"""
     meta = C.fresh_dir(os.path.join(wd, "meta_beh"))
-    env = dict(os.environ, GRAPH=graph, PROG=prog, KNOWN="known", CACHE=cache)
+    env = dict(os.environ, GRAPH=graph, PROG=prog, KNOWN="known", CACHE=cache, VARIANT=variant)
     cmd = C.tlc_cmd("LoaderBeh.tla", "LoaderBeh.cfg", 1, meta, xmx="2g",
                     extra=["-simulate", "num=%d" % n, "-depth", "5000", "-seed", str(seed)])
     p = subprocess.run(cmd, cwd=C.SPEC, env=env, stdout=subprocess.PIPE, stderr=subprocess.STDOUT, text=True, timeout=900)
@@ -67,16 +67,17 @@ def replay_behaviours(t, wd):
     observable event is the thread the scheduler lets run; the record carries the model's event sequence and outcome
     next to the real ones (compared by JudgeLoader) and all fields of the contract"""
     graph, prog, cache = t["graph"], t["prog"], t.get("cache", "empty")
+    variant = t.get("variant", "terminology")
     names = list(sched.GRAPHS[graph])
-    for b in behaviours(graph, prog, cache, t["n"], t.get("seed", 1) + C.seed(), wd):
-        r = sched.run(graph, prog, [e["tid"] for e in b["hist"]], wd, "terminology", cache)
+    for b in behaviours(graph, prog, cache, t["n"], t.get("seed", 1) + C.seed(), wd, variant):
+        r = sched.run(graph, prog, [e["tid"] for e in b["hist"]], wd, variant, cache)
         errs = [r["errs"][tid] for tid in sorted(r["errs"], key=int)]
         loads = [x for x in r["results"] if x["op"] == "load" and x["res"] == "ok"]
         objs = []
         for x in loads:
             if x["obj"] not in objs:
                 objs.append(x["obj"])
-        yield {"fam": "loader", "src": "behaviour", "variant": "terminology", "graph": graph, "prog": prog, "prefix": [], "preemptions": -1,
+        yield {"fam": "loader", "src": "behaviour", "variant": variant, "graph": graph, "prog": prog, "prefix": [], "preemptions": -1,
                "results": r["results"], "errs": errs, "deadlock": r["deadlock"], "cached": r["cached"],
                "cache": cache, "cache_before": r["cache_before"], "cache_after": r["cache_after"],
                "fetchok": {x: sched.fetchable(graph, x) for x in names},
@@ -117,13 +118,13 @@ def replay(t):
                "fetchok": {x: sched.fetchable(graph, x) for x in names},
                "expected": {x: sched.expected_sig(graph, x) for x in names},
                "steps": r["steps"], "trace_checked": False, "trace_accepted": True}
-        if variant == "terminology" and n % t["sample"] == 0:
+        if n % t["sample"] == 0:
             rec["trace_checked"] = True
-            rec["trace_accepted"], rec["trace_reached"] = validate_trace(graph, prog, r["log"], wd, cache)
+            rec["trace_accepted"], rec["trace_reached"] = validate_trace(graph, prog, r["log"], wd, cache, variant)
         yield rec
 
 
-def validate_trace(graph, prog, log, wd, cache="empty"):
+def validate_trace(graph, prog, log, wd, cache="empty", variant="terminology"):
     """TLC: is the recorded event log a behaviour of OdmlLoader?"""
     os.makedirs(wd, exist_ok=True)
     tf = os.path.join(wd, "trace.ndjson")
@@ -131,7 +132,7 @@ def validate_trace(graph, prog, log, wd, cache="empty"):
         for tid, k, u, th in log:
             f.write(json.dumps({"tid": tid, "k": k, "u": u, "t": th}) + "\n")
     meta = C.fresh_dir(os.path.join(wd, "meta"))
-    env = dict(os.environ, GRAPH=graph, PROG=prog, KNOWN="known", CACHE=cache, TRACE_FILE=tf,
+    env = dict(os.environ, GRAPH=graph, PROG=prog, KNOWN="known", CACHE=cache, TRACE_FILE=tf, VARIANT=variant,
                JAVA_TOOL_OPTIONS="-Dtlc2.tool.queue.IStateQueue=StateDeque")
     cmd = C.tlc_cmd("LoaderTrace.tla", "LoaderTrace.cfg", 1, meta, xmx="1g")
     p = subprocess.run(cmd, cwd=C.SPEC, env=env, stdout=subprocess.PIPE, stderr=subprocess.STDOUT, text=True)
